@@ -227,7 +227,11 @@ func runMix(run *rep.Run, m mix, id int) {
 		case 4:
 			body = append([]byte(" \t"), append(body, ' ', ' ')...)
 		}
-		req, _ := http.NewRequest("POST", w.Base+"/olla/anthropic/v1/messages", bytes.NewReader(body))
+		var rdr io.Reader = bytes.NewReader(body)
+		if (id+si)%3 == 0 {
+			rdr = client.ChunkedReader{R: bytes.NewReader(body)} // upload without a declared length
+		}
+		req, _ := http.NewRequest("POST", w.Base+"/olla/anthropic/v1/messages", rdr)
 		req.Header.Set("Content-Type", "application/json")
 		req.Header.Set("anthropic-version", "2023-06-01")
 		res := client.Do(hc, req)
